@@ -349,6 +349,29 @@ theorem gen_rlk_step2_refuses (o : Ops α) (pa : α → α → R α) (sch : Sche
     rw [genmp_reveal_finish]; unfold Reveal.finish; simp [hp]
   simp [mapRM, this, bind, Except.bind]
 
+/-- relin protocol, message flow: `receive_step1` / `receive_step2` hand the first |h0| polynomials of a sender's message to the h0
+    objects and the next |h1| to the h1 objects, each into the SENDER's slot (`putSlot`), nothing else changes; `send_step1/2` emit the own
+    polynomials in exactly this order. (Hypotheses: the message has one polynomial per object; the sender id is a valid slot - otherwise
+    the code's index panic, `Reveal.receive` = `.error .oob`.) -/
+theorem gen_rlk_receive_send (sender : Nat) (h0d h1d : List (Reveal α)) (m0 m1 rest : List α)
+    (hl0 : m0.length = h0d.length) (hl1 : m1.length = h1d.length)
+    (hs0 : ∀ p ∈ h0d, sender < p.slots.length) (hs1 : ∀ p ∈ h1d, sender < p.slots.length) :
+    GenMp.rlk_receive_step1 h0d h1d sender (m0 ++ (m1 ++ rest))
+      = .ok (List.zipWith (putSlot sender) h0d m0, List.zipWith (putSlot sender) h1d m1, rest) ∧
+    GenMp.rlk_receive_step2 h0d h1d sender (m0 ++ (m1 ++ rest))
+      = .ok (List.zipWith (putSlot sender) h0d m0, List.zipWith (putSlot sender) h1d m1, rest) ∧
+    GenMp.rlk_send_step1 h0d h1d = h0d.map Reveal.own ++ h1d.map Reveal.own ∧
+    GenMp.rlk_send_step2 h0d h1d = h0d.map Reveal.own ++ h1d.map Reveal.own :=
+  ⟨(genmp_rlk_receive_step1 sender h0d h1d m0 m1 rest hl0 hl1 hs0 hs1).1, (genmp_rlk_receive_step1 sender h0d h1d m0 m1 rest hl0 hl1 hs0 hs1).2,
+   (genmp_rlk_send h0d h1d).1, (genmp_rlk_send h0d h1d).2⟩
+
+/-- the two-polynomial message of the public-key switch: first polynomial to the h0 object, second to the h1 object -/
+theorem gen_pks_receive (p0 p1 : Reveal α) (sender : Nat) (m0 m1 : α) (rest : List α) :
+    GenMp.public_key_switch_receive p0 p1 sender (m0 :: m1 :: rest)
+      = (do let p0' ← p0.receive sender m0; let p1' ← p1.receive sender m1; pure (p0', p1', rest)) ∧
+    GenMp.public_key_switch_send p0 p1 = [p0.own, p1.own] :=
+  ⟨genmp_public_key_switch_receive p0 p1 sender m0 m1 rest, rfl⟩
+
 /-! ### composition: the generated functions, run by n parties over a commutative ring -/
 
 /-- COLLECTIVE DECRYPTION through the generated functions: party i calls `decrypt` (one noise draw e_i) and obtains a reveal object
